@@ -202,7 +202,7 @@ def run(cx):
         cc = b.calls_to(f"{B}::client_config")
         sc = b.calls_to(f"{B}::server_config")
         ob.floor(cc, 1, "client_config call", exact=True)
-        ob.floor(sc, 2, "server_config calls", exact=True)
+        ob.floor(sc, 1, "server_config calls")
 
         def verifier_list(t):
             for x in walk(t):
@@ -211,22 +211,56 @@ def run(cx):
                     return [name_kind(v) for v in n] if n is not None else None
             return None
         ob.require(verifier_list(o.of_operand(cc[0].args[2])) == ["primary"], "build/client-verifier", f"client verifier accepts {verifier_list(o.of_operand(cc[0].args[2]))}", b.path)
-        got = []
-        for c in sc:
-            vl = verifier_list(o.of_operand(c.args[2]))
-            certs = vec_macro_elements(b, o, o.of_operand(c.args[0]))
-            pairs = []
-            for p in certs or []:
-                p = strip_identity(p)
-                if p[0] == "agg" and p[1] == "tuple":
-                    nk = name_kind(p[3][0])
-                    gc = [x for x in walk(p[3][1]) if x[0] == "call" and name_matches(x[1], f"{B}::generate_cert")]
-                    ck = name_kind(gc[0][2][1]) if len(gc) == 1 else "?"
-                    pairs.append((nk, ck))
-            got.append((vl, pairs))
+        def pair_kind(p):
+            p = strip_identity(p)
+            if p[0] == "agg" and p[1] == "tuple" and len(p[3]) == 2:
+                gc = [x for x in walk(p[3][1]) if x[0] == "call" and name_matches(x[1], f"{B}::generate_cert")]
+                return (name_kind(p[3][0]), name_kind(gc[0][2][1]) if len(gc) == 1 else "?")
+            return ("?", "?")
         want1 = (["primary", "alternate"], [("primary", "primary"), ("alternate", "alternate")])
         want2 = (["primary"], [("primary", "primary")])
-        ob.require(sorted(map(str, got)) == sorted(map(str, [want1, want2])), "build/server-configs", f"server configs (verifier names, (sni name, cert name) pairs): {got}", b.path)
+        if len(sc) >= 2:
+            got = []
+            for c in sc:
+                vl = verifier_list(o.of_operand(c.args[2]))
+                certs = vec_macro_elements(b, o, o.of_operand(c.args[0]))
+                got.append((vl, [pair_kind(p) for p in certs or []]))
+            ob.require(sorted(map(str, got)) == sorted(map(str, [want1, want2])), "build/server-configs", f"server configs (verifier names, (sni name, cert name) pairs): {got}", b.path)
+        else:
+            # one server_config call fed by values chosen on the `alternate_server_name` branch (a verifier picked per
+            # branch, the certificate list extended with push): decided per path
+            def b_call(c, oo):
+                if name_matches(c.fn, f"{B}::server_config"):
+                    vl = verifier_list(oo.of_operand(c.args[2]))
+                    certs = vec_macro_elements(b, oo, oo.of_operand(c.args[0]))
+                    return "cfg|" + repr(vl) + "|" + repr([pair_kind(p) for p in certs or []]) + "|" + repr(strip_identity(oo.of_operand(c.args[0])))[:400]
+                if name_matches(c.fn, "vec::Vec::push") and not is_tracing(c):
+                    return "push|" + repr(pair_kind(oo.of_operand(c.args[1]))) + "|" + repr(strip_identity(oo.of_operand(c.args[0])))[:400]
+                return None
+
+            def b_edge(a_, bb_, subj, labels, oo):
+                if subj[0] == "discr" and mentions_field(subj[1], "alternate_server_name") and strip_identity(subj[1])[0] != "call":
+                    return "alt=" + "|".join(sorted(labels))
+                return None
+            bws = {w for w in seq_words(b, b_call, None, b_edge, strict=False) if any(isinstance(x, str) and x.startswith("cfg|") for x in w)}
+            ob.count(len(bws))
+            got = {}
+            import ast
+            for w in bws:
+                alt = [x[4:] for x in w if isinstance(x, str) and x.startswith("alt=")]
+                cfgs = [x for x in w if isinstance(x, str) and x.startswith("cfg|")]
+                if len(alt) != 1 or len(cfgs) != 1 or w.index(cfgs[0]) < w.index("alt=" + alt[0]):
+                    ob.fail("refuted", "build/server-configs/path", f"build(): path {fmt_word(w)[:200]} does not decide the alternate name exactly once before the one server_config call", b.path)
+                    continue
+                _, vl_, init_, vec_ = cfgs[0].split("|", 3)
+                pairs = list(ast.literal_eval(init_))
+                for x in w[:w.index(cfgs[0])]:
+                    if isinstance(x, str) and x.startswith("push|"):
+                        _, pk_, pv_ = x.split("|", 2)
+                        if pv_ == vec_:
+                            pairs.append(ast.literal_eval(pk_))
+                got.setdefault(alt[0], set()).add(str((ast.literal_eval(vl_), pairs)))
+            ob.require(got == {"Some": {str(want1)}, "None": {str(want2)}}, "build/server-configs", f"server configs per branch (verifier names, (sni name, cert name) pairs): {got}", b.path)
         # client presents the primary certificate
         t = o.of_operand(cc[0].args[0])
         gc = [x for x in walk(t) if x[0] == "call" and name_matches(x[1], f"{B}::generate_cert")]
